@@ -25,6 +25,14 @@ Monitors
                         a read-only array must be accepted
   rcrit_root            findRcrit(R_s, R_max) returns R with |R/(R_s*thermoFactor(ar(R))) - 1| <= ShapeFactor.tol
                         whenever a root is bracketed
+  history_fresh_agree   re-specification histories on ONE ShapeFactor object (setAspectRatio with constants and callables,
+                        shape changes by name / set*Shape / description instance / description setter, interleaved with
+                        scalar and array queries of recurring and new sizes): every query (normalRadii, the three factors,
+                        aspectRatio, findRcrit) equals the same query on a fresh object that was given only the
+                        specification currently in force (1e-12 relative; the arithmetic is identical).  The same queries
+                        also feed axes_unit_volume, thermo_area_oracle, kinetic_capacitance_oracle (aspect ratio in force
+                        evaluated by the harness) and scalar_array_agree (scalar follow-up queries on the same object),
+                        with api = 'history' in the mechanism.
 
 Decisions where the statement is silent or ambiguous (resolved towards not asserting)
   * "multiply to unit volume": the spheroid/sphere lengths are semi-axes (volume 4*pi/3*abc); the cuboid
@@ -41,6 +49,10 @@ Decisions where the statement is silent or ambiguous (resolved towards not asser
     in the bracket with |g| <= tol/100.  A sign change across a jump of g is therefore not counted as a
     bracketed root (event sign_change_without_root); nothing is asserted for unbracketed calls, nor that the
     returned root lies inside the bracket.  Aspect-ratio functions are continuous, positive and <= 100.
+  * Histories: the specification in force is what the last calls requested (shape, constant or callable ratio);
+    the documented override "sphere description => aspect ratio 1" (setSpherical, SphereDescription instance) is
+    followed by the harness's shadow; aspectRatio(R) is compared with the fresh object only (its value for a
+    sphere or for ratios below 1 is not in the statement).
   * Output array shapes are checked only as far as needed to pair elements (n >= 2 inputs give n outputs).
   * Aspect ratios are finite numbers in (0, 100] (0 occurs only as the below-1 member of integer arrays);
     negative, NaN and > 100 inputs are outside the statement.
@@ -56,12 +68,14 @@ RULE = ('case kinds: geometry (jittered log grid of aspect ratios over a window 
         'needle/plate, semi-axes for 4 shapes, both APIs), continuity (eps = 1e-3..1e-9 fixed + random, 4 shapes x 3 '
         'factors x 4 call paths), args (random arrays mixing ratios < 1, = 1, > 1 in 7 container kinds: scalar=array, '
         'clamp, argument bit image), rcrit (random continuous radius-dependent and constant aspect-ratio functions, '
-        'tolerances 1e-2..1e-9). Non-trivial: geometry >= 100 ratios with factor-1 > 1e-6 compared with the oracle; '
+        'tolerances 1e-2..1e-9), history (8 random re-specification histories of ~30 operations on one ShapeFactor object each). Non-trivial: geometry >= 100 ratios with factor-1 > 1e-6 compared with the oracle; '
         'continuity: all three factors evaluated at some eps <= 1e-6; args: an array with elements on both sides of 1 '
-        'whose bit image was compared; rcrit: a bracketed search whose start point misses the root by > 10 tol. '
+        'whose bit image was compared; rcrit: a bracketed search whose start point misses the root by > 10 tol; history: an array query of a size already queried before the latest '
+        'change of the ratio in force, compared with a fresh object. '
         'Distinct by case description (kind, window/shape, seed, index)')
 REQUIRED_MONITORS = ['axes_unit_volume', 'thermo_area_oracle', 'kinetic_capacitance_oracle', 'unit_at_one', 'increasing',
-                     'continuity_at_1', 'scalar_array_agree', 'below_one_as_one', 'caller_array_intact', 'rcrit_root']
+                     'continuity_at_1', 'scalar_array_agree', 'below_one_as_one', 'caller_array_intact', 'rcrit_root',
+                     'history_fresh_agree']
 _F = 'precipitation/parameters/ShapeFactors.py:'
 REACH = [_F + 'ShapeDescriptionBase._processAspectRatio', _F + 'ShapeDescriptionBase.normalRadii',
          _F + 'ShapeDescriptionBase.eqRadiusFactor', _F + 'ShapeDescriptionBase.kineticFactor',
@@ -74,8 +88,9 @@ REACH = [_F + 'ShapeDescriptionBase._processAspectRatio', _F + 'ShapeDescription
          _F + 'CuboidalDescription._eqRadius', _F + 'CuboidalDescription._normalRadii',
          _F + 'CuboidalDescription._kineticFactor', _F + 'CuboidalDescription._thermoFactor',
          _F + 'ShapeFactor.normalRadii', _F + 'ShapeFactor.eqRadiusFactor', _F + 'ShapeFactor.kineticFactor',
-         _F + 'ShapeFactor.thermoFactor', _F + 'ShapeFactor._findRcritScalar', _F + 'ShapeFactor._findRcrit']
-MIN_NONTRIVIAL = {'quick': 70, 'thorough': 5500}
+         _F + 'ShapeFactor.thermoFactor', _F + 'ShapeFactor._findRcritScalar', _F + 'ShapeFactor._findRcrit',
+         _F + 'ShapeFactor.setAspectRatio', _F + 'ShapeFactor.setPrecipitateShape', _F + 'ShapeFactor._scalarAspectRatioEquation']
+MIN_NONTRIVIAL = {'quick': 90, 'thorough': 6000}
 CASE_TIMEOUT = 300
 MAX_INCONCLUSIVE_FRACTION = 0.0
 ASSUMPTIONS = ['scipy.integrate.quad (error estimate <= 1e-10 required) and scipy.special.elliprf are trusted; they must agree to 1e-10',
@@ -118,6 +133,8 @@ def plan(tier, seed):
             cases.append({'kind': 'args', 'shape': shape, 'rep': k, 'trials': 60, 'weight': 1.0})
     for k in range(n_rcrit):
         cases.append({'kind': 'rcrit', 'rep': k, 'searches': per_rcrit, 'weight': 0.5})
+    for k in range(24 if tier == 'quick' else 600):
+        cases.append({'kind': 'history', 'rep': k, 'histories': 8, 'ops': 30, 'weight': 1.0})
     return cases
 
 
@@ -717,6 +734,201 @@ def _run_rcrit(case, R, rng):
     R.set_nontrivial(nontrivial)
 
 
+# ================================================================================================ history
+
+QUERY_METHODS = ['normalRadii', 'eqRadiusFactor', 'kineticFactor', 'thermoFactor', 'aspectRatio']
+
+
+def _ar_in_force(spec, radii):
+    """Aspect ratio the current specification requests at the given radii (harness side), clamped at 1."""
+    radii = np.atleast_1d(np.asarray(radii, dtype=float))
+    if spec['kind'] == 'const':
+        a = float(spec['value']) * np.ones(radii.shape)
+    else:
+        a = np.asarray(spec['fn'](radii), dtype=float) * np.ones(radii.shape)
+    return np.maximum(a, 1.0)
+
+
+def _respec(sf, rng, state, Rs):
+    """Apply one random re-specification to `sf`; update the shadow `state` (shape, spec); return its kind."""
+    from kawin.precipitation.parameters import ShapeFactors as SFm
+    cls = {'sphere': SFm.SphereDescription, 'needle': SFm.NeedleDescription, 'plate': SFm.PlateDescription,
+           'cubic': SFm.CuboidalDescription}
+
+    def draw_spec():
+        if rng.random() < 0.7:
+            u = rng.random()
+            v = float(np.exp(rng.uniform(0, math.log(100.0)))) if u < 0.8 else (1.0 if u < 0.9 else float(rng.uniform(0.2, 1.0)))
+            if rng.random() < 0.15:
+                v = int(max(1, round(v)))
+            return {'kind': 'const', 'value': v}, v
+        descr, fn = _draw_arfun(rng, Rs, 1000.0 * Rs)
+        return {'kind': 'fn', 'fn': fn, 'descr': descr}, fn
+    op = ['ar_const_or_fn', 'ar_const_or_fn', 'ar_const_or_fn', 'shape_by_name', 'shape_setter', 'shape_instance',
+          'description_setter', 'shape_setter_default'][int(rng.integers(8))]
+    if op == 'ar_const_or_fn':
+        spec, arg = draw_spec()
+        sf.setAspectRatio(arg)
+        state['spec'] = spec
+        return 'setAspectRatio_' + spec['kind']
+    shape = SHAPES[int(rng.integers(4))]
+    if op == 'description_setter':
+        sf.description = cls[shape]()
+        state['shape'] = shape
+        return op
+    if op == 'shape_setter_default':
+        {'sphere': sf.setSpherical, 'needle': sf.setNeedleShape, 'plate': sf.setPlateShape, 'cubic': sf.setCuboidalShape}[shape]()
+        state['shape'] = shape
+        state['spec'] = {'kind': 'const', 'value': 1}
+        return op
+    spec, arg = draw_spec()
+    if op == 'shape_by_name':
+        name = shape if rng.random() < 0.5 else shape.upper()
+        sf.setPrecipitateShape(name, arg)
+    elif op == 'shape_setter':
+        {'sphere': sf.setSpherical, 'needle': sf.setNeedleShape, 'plate': sf.setPlateShape, 'cubic': sf.setCuboidalShape}[shape](arg)
+        if shape == 'sphere':
+            spec = {'kind': 'const', 'value': 1}      # documented: setSpherical forces the ratio to 1
+    else:
+        sf.setPrecipitateShape(cls[shape](), arg)
+        if shape == 'sphere':
+            spec = {'kind': 'const', 'value': 1}      # documented override for a sphere description
+    state['shape'] = shape
+    state['spec'] = spec
+    return op
+
+
+def _fresh(state, how):
+    spec = state['spec']
+    return _make_sf(state['shape'], spec['value'] if spec['kind'] == 'const' else spec['fn'], how)
+
+
+def _run_history(case, R, rng):
+    ocache = {}
+
+    def oracle(shape, ar, which):
+        k = (shape, float(ar))
+        if k not in ocache:
+            ax = _axes(shape, float(ar))
+            A, eA = oracle_area_ratio(ax[0], ax[2])
+            C, eC = oracle_capacitance_ratio(*ax)
+            if max(eA, eC) > 1e-10:
+                R.inconclusive = 'oracle self-check failed at ar=%r shape=%s' % (float(ar), shape)
+            ocache[k] = (A, C)
+        return ocache[k][0 if which == 'thermoFactor' else 1]
+
+    nontrivial = False
+    for h in range(case['histories']):
+        Rs = float(10.0 ** rng.uniform(-10, -8))
+        sizes = [int(x) for x in rng.choice([1, 2, 3, 5, 7, 12, 20], size=2, replace=False)]
+        state = {'shape': SHAPES[int(rng.integers(4))], 'spec': {'kind': 'const', 'value': float(np.exp(rng.uniform(0, math.log(100.0))))}}
+        try:
+            sf = _fresh(state, int(rng.integers(3)))
+        except Exception as e:  # noqa
+            R.exception('history_fresh_agree', e, {'shape': state['shape'], 'clause': 'construct'})
+            continue
+        last_respec = 'none'
+        sizes_before = set()      # array sizes queried before the latest re-specification
+        sizes_since = set()       # ... and since
+        for step in range(case['ops']):
+            if rng.random() < 0.3:
+                try:
+                    last_respec = _respec(sf, rng, state, Rs)
+                except Exception as e:  # noqa
+                    R.exception('history_fresh_agree', e, {'shape': state['shape'], 'clause': 'respecify'})
+                    break
+                sizes_before |= sizes_since
+                sizes_since = set()
+                R.observe('history_respecifications')
+                continue
+            shape, spec = state['shape'], state['spec']
+            meth = QUERY_METHODS[int(rng.integers(len(QUERY_METHODS)))]
+            u = rng.random()
+            if u < 0.25:
+                n, arg, qkind = 1, float(Rs * 10.0 ** rng.uniform(0, 2.5)), 'scalar'
+            else:
+                n = sizes[int(rng.integers(2))] if u < 0.9 else int(rng.integers(1, 30))
+                arg, qkind = Rs * 10.0 ** rng.uniform(0, 2.5, size=n), 'array'
+            recurring = qkind == 'array' and n in sizes_before and n not in sizes_since
+            mech = {'shape': shape, 'method': meth, 'api': 'history', 'query': qkind, 'ar': spec['kind'],
+                    'last_respec': last_respec, 'size_seen_before_respec': bool(recurring)}
+            try:
+                fresh = _fresh(state, int(rng.integers(3)))
+                want = getattr(fresh, meth)(arg if qkind == 'scalar' else arg.copy())
+            except Exception:
+                R.observe('history_fresh_object_raised')
+                continue
+            try:
+                got = getattr(sf, meth)(arg if qkind == 'scalar' else arg.copy())
+            except Exception as e:  # noqa
+                R.exception('history_fresh_agree', e, mech)
+                continue
+            if qkind == 'array':
+                sizes_since.add(n)
+            R.observe('history_queries')
+            got_a, want_a = np.asarray(got, dtype=float), np.asarray(want, dtype=float)
+            if got_a.shape != want_a.shape:
+                R.check('history_fresh_agree', False, dict(mech, clause='shape'), got=list(got_a.shape), want=list(want_a.shape))
+                continue
+            r = float(np.max(_rel(got_a, want_a))) if got_a.size else 0.0
+            R.worst('history_fresh_rel', r)
+            R.check('history_fresh_agree', r <= TOL_SAME, mech, radii=arg, got=got_a, fresh=want_a,
+                    spec=spec.get('value', spec.get('descr')), step=step)
+            if recurring:
+                R.observe('history_recurring_size_after_respec')
+                nontrivial = True
+            # ---- geometric oracles for the ratio in force
+            try:
+                ar = _ar_in_force(spec, arg)
+            except Exception:
+                continue
+            if ar.max() > 100.0 * (1 + 1e-12):
+                continue
+            if meth == 'normalRadii':
+                _check_axes(R, shape, ar, got_a, 'history')
+            elif meth in ('thermoFactor', 'kineticFactor') and shape in SPHEROIDS and got_a.size == n:
+                mon = 'thermo_area_oracle' if meth == 'thermoFactor' else 'kinetic_capacitance_oracle'
+                flat = got_a.reshape(n)
+                for i in (range(n) if spec['kind'] == 'fn' and n <= 4 else [int(rng.integers(n))]):
+                    o = oracle(shape, ar[i], meth)
+                    rr = float(_rel(flat[i], o))
+                    R.worst('thermo_vs_area_rel' if meth == 'thermoFactor' else 'kinetic_vs_capacitance_rel', rr)
+                    R.check(mon, rr <= TOL_ORACLE, {'shape': shape, 'factor': meth, 'api': 'history', 'last_respec': last_respec,
+                                                    'size_seen_before_respec': bool(recurring)},
+                            ar=ar[i], got=flat[i], oracle=o, step=step)
+            # ---- scalar follow-up queries on the same object
+            if qkind == 'array' and meth != 'aspectRatio' and n >= 2 and rng.random() < 0.5 and got_a.shape[0] == n:
+                for i in rng.choice(n, size=min(n, 2), replace=False):
+                    try:
+                        sv = np.asarray(getattr(sf, meth)(float(arg[i])), dtype=float)
+                    except Exception as e:  # noqa
+                        R.exception('scalar_array_agree', e, dict(mech, query='scalar_followup'))
+                        continue
+                    rr = float(np.max(_rel(got_a[i], sv))) if sv.shape == got_a[i].shape else float('inf')
+                    R.worst('scalar_array_rel', rr)
+                    R.check('scalar_array_agree', rr <= TOL_SAME, {'shape': shape, 'method': meth, 'api': 'history', 'input': 'ndarray',
+                                                                   'last_respec': last_respec, 'size_seen_before_respec': bool(recurring)},
+                            radius=arg[i], array_value=got_a[i], scalar_value=sv, step=step)
+        # ---- one root search at the end of the history, against the fresh object
+        try:
+            fresh = _fresh(state, 0)
+            Rmax = Rs * float(10.0 ** rng.uniform(0.5, 3.0))
+            want = float(fresh.findRcrit(Rs, Rmax))
+        except Exception:
+            R.observe('history_fresh_object_raised')
+            continue
+        mech = {'shape': state['shape'], 'method': 'findRcrit', 'api': 'history', 'ar': state['spec']['kind'], 'last_respec': last_respec}
+        try:
+            got = float(sf.findRcrit(Rs, Rmax))
+        except Exception as e:  # noqa
+            R.exception('history_fresh_agree', e, mech)
+            continue
+        rr = float(_rel(got, want))
+        R.worst('history_fresh_rel', rr)
+        R.check('history_fresh_agree', rr <= TOL_SAME, mech, got=got, fresh=want, Rs=Rs, Rmax=Rmax)
+    R.set_nontrivial(nontrivial)
+
+
 # ================================================================================================ driver hook
 
 def run_case(case, R):
@@ -731,6 +943,8 @@ def run_case(case, R):
         _run_args(case, R, rng)
     elif kind == 'rcrit':
         _run_rcrit(case, R, rng)
+    elif kind == 'history':
+        _run_history(case, R, rng)
     else:
         R.inconclusive = 'unknown case kind %r' % kind
 
@@ -738,7 +952,8 @@ def run_case(case, R):
 MANIFEST = {
     'text': 'The real shape descriptions and ShapeFactor are called on jittered log grids of aspect ratios in [1,100] (3 000 quick / '
             '~580 000 thorough), on eps-sequences 1e-3..1e-9 above 1, on random arrays mixing ratios below, at and above 1 in seven '
-            'container kinds, and on 400 / 36 000 critical-radius searches with random continuous aspect-ratio functions; needle/plate '
+            'container kinds, on 400 / 36 000 critical-radius searches with random continuous aspect-ratio functions, and on 192 / 4 800 re-specification '
+            'histories of one ShapeFactor object (each query compared with a fresh object and the oracles); needle/plate '
             'thermodynamic and kinetic factors are compared with numerical quadrature of the spheroid area and capacitance integrals. '
             'Sampled, not exhaustive.',
     'note': 'trusted: scipy.integrate.quad (error estimate checked, cross-checked with Carlson R_F), scipy.optimize.brentq for root existence; '
